@@ -58,7 +58,7 @@ def cases(draw, path):
         module = draw(st.sampled_from(['std', 'safe']))
     return {'sig': sig, 'kind': kind, 'nfix': nfix, 'fixed': [draw(vals) for _ in range(nfix)], 'pkw': pkw, 'binding': b, 'others': others,
             'form1': draw(st.integers(0, 255)), 'form2': draw(st.integers(0, 255)), 'keymap': km, 'path': path,
-            'module': module, 'algo': draw(st.sampled_from(['inf', 'lru', 'lfu', 'mru', 'rr']))}
+            'module': module, 'algo': draw(st.sampled_from(['inf', 'lru', 'lfu', 'mru', 'rr'] + H.DISPATCHED))}
 
 
 def rest_sig(sig, nfix, pkw):
